@@ -24,6 +24,8 @@ func init() {
 }
 
 func runC03(c *Ctx) {
+	c.Rule("C03.R9", "frozen lockset: a stream's listener list is only touched under the stream mutex", 4)
+	defer runLockTables(c, "C03", nil)
 	c.Rule("C03.R1", "one-shot tokens are atomic-only", 30)
 	c.Rule("C03.R2", "terminal producers run only on the CAS-winner edge", 8)
 	c.Rule("C03.R3", "timer callbacks: reuse off -> cleaned -> generation -> CAS -> handler", 2)
